@@ -104,4 +104,233 @@ theorem joinLines_ends (ls : List Line) : joinLines ls = [] ∨ ∃ p, joinLines
     · exact ⟨l, by simp [joinLines_cons, h]⟩
     · exact ⟨l ++ '\n' :: p, by simp [joinLines_cons, h]⟩
 
+/-! ### re-reading the stripped text (simulation used for idempotence) -/
+
+theorem render_append (a b : List Out) : render (a ++ b) = render a ++ render b := by
+  induction a with
+  | nil => rfl
+  | cons o r ih => cases o <;> simp [render, ih]
+
+/-- state of a lexer that re-reads the rendered output produced so far -/
+def reC : CSt → CSt
+  | .str => .str | .strEsc => .strEsc | .chr => .chr | .chrEsc => .chrEsc
+  | _ => .code
+
+def rch : Out → Char
+  | .ch c => c | .lit c => c | .sp => ' ' | .nl => '\n'
+
+theorem render_single (o : Out) : render [o] = [rch o] := by cases o <;> rfl
+
+theorem codeOut_render (c : Char) (h1 : c ≠ '/') (h2 : c ≠ '"') (h3 : c ≠ '\'') :
+    stepCodeC (rch (codeOut c)) = (.code, [codeOut c]) := by
+  unfold codeOut
+  by_cases hn : c = '\n'
+  · subst hn; decide
+  · simp only [hn, if_false]
+    by_cases hb : isBlank c = true
+    · simp only [hb, if_true]; decide
+    · simp [hb, rch, stepCodeC, h1, h2, h3, codeOut, hn]
+
+theorem codeOut_rch_ne (c : Char) (h1 : c ≠ '/') (h2 : c ≠ '*') :
+    rch (codeOut c) ≠ '/' ∧ rch (codeOut c) ≠ '*' := by
+  unfold codeOut
+  by_cases hn : c = '\n'
+  · subst hn; decide
+  · simp only [hn, if_false]
+    by_cases hb : isBlank c = true
+    · simp only [hb, if_true]; decide
+    · simp [hb, rch, h1, h2]
+
+theorem code_sim (c : Char) :
+    run stepC .code (render (stepCodeC c).2) = (reC (stepCodeC c).1, (stepCodeC c).2) := by
+  by_cases h1 : c = '/'
+  · subst h1; decide
+  by_cases h2 : c = '"'
+  · subst h2; decide
+  by_cases h3 : c = '\''
+  · subst h3; decide
+  have := codeOut_render c h1 h2 h3
+  simp only [stepCodeC, h1, h2, h3, if_false, reC]
+  rw [render_single, run_singleton]
+  simp [stepC, this]
+
+theorem slash_sim (c : Char) (h1 : c ≠ '/') (h2 : c ≠ '*') :
+    run stepC .code ('/' :: render (stepCodeC c).2) = (reC (stepCodeC c).1, .ch '/' :: (stepCodeC c).2) := by
+  by_cases h3 : c = '"'
+  · subst h3; decide
+  by_cases h4 : c = '\''
+  · subst h4; decide
+  have := codeOut_render c h1 h3 h4
+  have hh := codeOut_rch_ne c h1 h2
+  simp only [stepCodeC, h1, h3, h4, if_false, reC]
+  rw [render_single]
+  simp only [run, stepC, stepCodeC, if_true, hh.1, hh.2, if_false]
+  have e : stepCodeC (rch (codeOut c)) = (.code, [codeOut c]) := this
+  simp only [stepCodeC, if_neg hh.1] at e
+  rw [e]
+  simp
+
+theorem step_sim (s : CSt) (c : Char) :
+    run stepC (reC s) (render (stepC s c).2) = (reC (stepC s c).1, (stepC s c).2) := by
+  cases s with
+  | code => exact code_sim c
+  | slash =>
+    simp only [stepC]
+    by_cases h1 : c = '/'
+    · subst h1; decide
+    by_cases h2 : c = '*'
+    · subst h2; decide
+    simp only [h1, h2, if_false, reC]
+    exact slash_sim c h1 h2
+  | line =>
+    simp only [stepC, reC]
+    by_cases h1 : c = '\n'
+    · subst h1; decide
+    by_cases h2 : c = '\\' <;> simp [h1, h2, run, render]
+  | lineEsc =>
+    simp only [stepC, reC]
+    by_cases h2 : c = '\\' <;> simp [h2, run, render]
+  | block =>
+    simp only [stepC, reC]
+    by_cases h2 : c = '*' <;> simp [h2, run, render]
+  | blockStar =>
+    simp only [stepC, reC]
+    by_cases h1 : c = '/'
+    · simp [h1, run, render]
+    by_cases h2 : c = '*' <;> simp [h1, h2, run, render]
+  | str =>
+    simp only [stepC, reC]
+    by_cases h1 : c = '"'
+    · subst h1; decide
+    by_cases h2 : c = '\\'
+    · subst h2; decide
+    by_cases h3 : c = '\n'
+    · subst h3; decide
+    simp [h1, h2, h3, run, render, stepC]
+  | strEsc => simp [stepC, reC, run, render]
+  | chr =>
+    simp only [stepC, reC]
+    by_cases h1 : c = '\''
+    · subst h1; decide
+    by_cases h2 : c = '\\'
+    · subst h2; decide
+    by_cases h3 : c = '\n'
+    · subst h3; decide
+    simp [h1, h2, h3, run, render, stepC]
+  | chrEsc => simp [stepC, reC, run, render]
+
+theorem run_sim (t : List Char) : ∀ s : CSt,
+    run stepC (reC s) (render (run stepC s t).2) = (reC (run stepC s t).1, (run stepC s t).2) := by
+  induction t with
+  | nil => intro s; simp [run, render]
+  | cons c cs ih =>
+    intro s
+    simp only [run, render_append]
+    rw [run_append, step_sim, ih]
+
+/-! Fortran -/
+
+def reF : FSt → FSt
+  | .str q => .str q
+  | _ => .code
+
+theorem codeOut_render_f (c : Char) (h1 : c ≠ '!') (h2 : c ≠ '\'') (h3 : c ≠ '"') (h4 : c ≠ '&') :
+    stepCodeF (rch (codeOut c)) = (.code, [codeOut c]) := by
+  unfold codeOut
+  by_cases hn : c = '\n'
+  · subst hn; decide
+  · simp only [hn, if_false]
+    by_cases hb : isBlank c = true
+    · simp only [hb, if_true]; decide
+    · simp [hb, rch, stepCodeF, h1, h2, h3, h4, codeOut, hn]
+
+theorem code_sim_f (c : Char) :
+    run stepF .code (render (stepCodeF c).2) = (reF (stepCodeF c).1, (stepCodeF c).2) := by
+  by_cases h1 : c = '!'
+  · subst h1; decide
+  by_cases h2 : c = '\''
+  · subst h2; decide
+  by_cases h3 : c = '"'
+  · subst h3; decide
+  by_cases h4 : c = '&'
+  · subst h4; decide
+  have := codeOut_render_f c h1 h2 h3 h4
+  simp only [stepCodeF, h1, h2, h3, h4, if_false, reF]
+  rw [render_single, run_singleton]
+  simp [stepF, this]
+
+theorem amp_sim_f (c : Char) (h0 : c ≠ '\n') (hb : isBlank c = false) (h1 : c ≠ '!') (h4 : c ≠ '&') :
+    run stepF .code ('&' :: render (stepCodeF c).2) = (reF (stepCodeF c).1, .ch '&' :: (stepCodeF c).2) := by
+  by_cases h2 : c = '\''
+  · subst h2; decide
+  by_cases h3 : c = '"'
+  · subst h3; decide
+  simp only [stepCodeF, h1, h2, h3, h4, if_false, reF, codeOut, h0, hb, Bool.false_eq_true]
+  simp [run, stepF, stepCodeF, render, h0, hb, h1, h2, h3, h4, codeOut]
+
+theorem step_sim_f (s : FSt) (c : Char) :
+    run stepF (reF s) (render (stepF s c).2) = (reF (stepF s c).1, (stepF s c).2) := by
+  cases s with
+  | code => exact code_sim_f c
+  | str q =>
+    simp only [stepF, reF]
+    by_cases h1 : c = '\n'
+    · subst h1; simp [run, render, stepF]
+    by_cases h2 : c = q
+    · subst h2; simp [h1, run, render, stepF]
+    simp [h1, h2, run, render, stepF]
+  | comment =>
+    simp only [stepF, reF]
+    by_cases h1 : c = '\n'
+    · subst h1; decide
+    simp [h1, run, render]
+  | amp =>
+    simp only [stepF, reF]
+    by_cases h0 : c = '\n'
+    · subst h0; decide
+    by_cases hb : isBlank c = true
+    · simp [h0, hb, run, render]
+    by_cases h1 : c = '!'
+    · subst h1; decide
+    by_cases h4 : c = '&'
+    · subst h4; decide
+    simp only [h0, hb, h1, h4, if_false]
+    exact amp_sim_f c h0 (by simpa using hb) h1 h4
+  | ampComment =>
+    simp only [stepF, reF]
+    by_cases h1 : c = '\n' <;> simp [h1, run, render]
+  | cont =>
+    by_cases h0 : c = '\n'
+    · subst h0; decide
+    by_cases hb : isBlank c = true
+    · simp [stepF, reF, h0, hb, run, render]
+    by_cases h1 : c = '!'
+    · subst h1; decide
+    by_cases h4 : c = '&'
+    · subst h4; decide
+    have hb' : isBlank c = false := by simpa using hb
+    have hstep : stepF .cont c = ((stepCodeF c).1, .sp :: (stepCodeF c).2) := by
+      simp [stepF, h0, hb', h1, h4]
+    rw [hstep]
+    show run stepF .code (render (.sp :: (stepCodeF c).2)) = (reF (stepCodeF c).1, .sp :: (stepCodeF c).2)
+    have := code_sim_f c
+    have e : stepF .code ' ' = (.code, [.sp]) := by decide
+    simp only [render]
+    rw [show ' ' :: render (stepCodeF c).2 = [' '] ++ render (stepCodeF c).2 from rfl, run_append,
+      run_singleton, e, this]
+    simp
+  | contComment =>
+    simp only [stepF, reF]
+    by_cases h1 : c = '\n' <;> simp [h1, run, render]
+
+theorem run_sim_f (t : List Char) : ∀ s : FSt,
+    run stepF (reF s) (render (run stepF s t).2) = (reF (run stepF s t).1, (run stepF s t).2) := by
+  induction t with
+  | nil => intro s; simp [run, render]
+  | cons c cs ih =>
+    intro s
+    simp only [run, render_append]
+    rw [run_append, step_sim_f, ih]
+
+
 end Shroud.Lex
